@@ -150,19 +150,57 @@ func c14Kademlia(r *ev.Run, g *rng.R) {
 	cache := kademlia.NewCache[int](local[:], 64, 0)
 	var wg sync.WaitGroup
 	var ops atomic.Int64
+	// a small pool of peers that are added again and again with different info, and readers that keep using what they were
+	// handed after the call has returned (results must not be written by later calls)
+	pool := make([]p2p.PeerID, 12)
+	for i := range pool {
+		g.Fill(pool[i][:])
+		pool[i][0] = local[0]
+	}
+	var sink atomic.Uint64
+	use := func(b []byte) {
+		var x uint64
+		for _, c := range b {
+			x = x*131 + uint64(c)
+		}
+		sink.Add(x)
+	}
 	for w := 0; w < 8; w++ {
 		lg := g.Fork()
 		wg.Add(1)
 		go func() {
 			defer wg.Done()
+			var kept [][]byte
 			for i := 0; i < pick(r, 1500, 8000); i++ {
 				var id p2p.PeerID
 				lg.Fill(id[:])
 				id[0] = local[0] // keep some keys close
+				if lg.Chance(1, 2) {
+					id = pool[lg.Intn(len(pool))]
+				}
 				key := id[:lg.Range(1, 32)]
-				switch lg.Intn(12) {
+				switch lg.Intn(14) {
+				case 12:
+					if info, ok := node.GetPeer(id); ok {
+						kept = append(kept, info)
+					}
+					for _, ni := range node.ListNodeInfos(key, 8) {
+						kept = append(kept, ni.Info)
+					}
+					if res, err := node.HandleFindNode(id, kademlia.FindNodeReq{Target: id, Limit: 5}); err == nil {
+						for _, ni := range res.Nodes {
+							kept = append(kept, ni.Info)
+						}
+					}
+					if len(kept) > 64 {
+						kept = kept[len(kept)-64:]
+					}
+				case 13:
+					for _, b := range kept {
+						use(b)
+					}
 				case 0:
-					node.AddPeer(id, []byte("info"))
+					node.AddPeer(id, lg.Bytes(lg.Range(0, 24)))
 				case 1:
 					node.HandlePut(id, kademlia.PutReq{Key: key, Value: []byte("v"), TTLms: 1000})
 				case 2:
